@@ -292,7 +292,7 @@ def run(ctx):
     if f:
         T = tpl.Templates(f)
         txt = " || ".join(T.text(s) for s in T.root_streams())
-        ok = bool(re.search(r":: darling :: Error :: (⟨[^⟩]*⟩|⟨alt[^|]*\|[^⟩]*⟩) \. with_span \( __inner \)", txt)) or ":: darling :: Error ::" in txt and ". with_span ( __inner )" in txt
+        ok = bool(re.search(r":: darling :: Error :: (⟨[^⟩]*⟩|⟨alt[^¦]*¦[^⟩]*⟩) \. with_span \( __inner \)", txt)) or ":: darling :: Error ::" in txt and ". with_span ( __inner )" in txt
         ctx.ob("C03.H.unknown-field-spanned", f.key, "unknown-field error", ok, "template: %s" % txt[:500])
     # extractor: .map_err(|e| e.with_span(&__inner).at(location))
     f = ctx.fn(common.TOK % "field::MatchArm<'_>")
